@@ -434,7 +434,13 @@ class BioConsert(RankAggAlgorithm, PairwiseBasedAlgorithm):
         else:
 
             # get for each departure ranking the initial value of kemeny score with the input Dataset
-            bucket_ids: ndarray = dataset_to_consider.get_bucket_ids().transpose()
+            # bucket ids indexed by the element ids of the input dataset (the unified dataset has its own numbering)
+            mapping_elem_id: Dict[Element, int] = dataset.mapping_elem_id
+            bucket_ids: ndarray = zeros((dataset_to_consider.nb_rankings, dataset.nb_elements)) - 1
+            for id_ranking, ranking in enumerate(dataset_to_consider.rankings):
+                for id_bucket, bucket in enumerate(ranking):
+                    for elem in bucket:
+                        bucket_ids[id_ranking][mapping_elem_id[elem]] = id_bucket
 
             # to be sure that all the departure rankings are different, use a dct
             distinct_rankings: Set[Tuple[int, ...]] = set()
